@@ -46,3 +46,33 @@ package jsonrpc
 //@   ensures [success] rpc.res1 == nil ==> err == nil && r == rpc.res0
 //@   ensures [error] rpc.res1 != nil ==> err != nil
 //@   ensures [same-ids] rpc.count == 1 && rpc.arg1 == ids
+
+// ---- the server side: every RPC method hands exactly its arguments to the DA implementation it
+// serves and returns exactly that implementation's answer (the proxy adds and removes nothing)
+//@ func (s *serverInternalAPI) SubmitWithOptions(ctx, blobs, gasPrice, ns, options) (ids, err)
+//@   property C16
+//@   requires [wiring] s.daImpl != nil && s.logger != nil
+//@   observe in := call SubmitWithOptions
+//@   ensures [forwards] in.count == 1 && in.arg0 == s.daImpl && in.arg2 == blobs && in.arg3 == gasPrice && in.arg4 == ns && in.arg5 == options
+//@   ensures [answers] ids == in.res0 && err == in.res1
+
+//@ func (s *serverInternalAPI) Submit(ctx, blobs, gasPrice, ns) (ids, err)
+//@   property C16
+//@   requires [wiring] s.daImpl != nil && s.logger != nil
+//@   observe in := call Submit
+//@   ensures [forwards] in.count == 1 && in.arg0 == s.daImpl && in.arg2 == blobs && in.arg3 == gasPrice && in.arg4 == ns
+//@   ensures [answers] ids == in.res0 && err == in.res1
+
+//@ func (s *serverInternalAPI) GetIDs(ctx, height, ns) (r, err)
+//@   property C16
+//@   requires [wiring] s.daImpl != nil && s.logger != nil
+//@   observe in := call GetIDs
+//@   ensures [forwards] in.count == 1 && in.arg0 == s.daImpl && in.arg2 == height && in.arg3 == ns
+//@   ensures [answers] r == in.res0 && err == in.res1
+
+//@ func (s *serverInternalAPI) Get(ctx, ids, ns) (blobs, err)
+//@   property C16
+//@   requires [wiring] s.daImpl != nil && s.logger != nil
+//@   observe in := call Get
+//@   ensures [forwards] in.count == 1 && in.arg0 == s.daImpl && in.arg2 == ids && in.arg3 == ns
+//@   ensures [answers] blobs == in.res0 && err == in.res1
